@@ -70,6 +70,11 @@ def run(ctx):
                 names = [h.id for h in heads if isinstance(h, ast.Name)] + [f"self.{h.attr}" for h in heads if isinstance(h, ast.Attribute) and isinstance(h.value, ast.Name) and h.value.id == f.params[0]]
                 ok = any(x in params for x in names)
                 why = f"fallback of {names}"
+            elif isinstance(p, ast.IfExp) and isinstance(p.test, ast.Compare) and isinstance(p.test.left, ast.Name) and p.test.left.id in params \
+                    and isinstance(p.test.comparators[0], ast.Constant) and p.test.comparators[0].value is None \
+                    and ((isinstance(p.test.ops[0], ast.IsNot) and p.orelse is n and isinstance(p.body, ast.Name) and p.body.id == p.test.left.id)
+                         or (isinstance(p.test.ops[0], ast.Is) and p.body is n and isinstance(p.orelse, ast.Name) and p.orelse.id == p.test.left.id)):
+                ok, why = True, f"fallback of {p.test.left.id}"
             else:
                 cur = n
                 while cur in parents:
@@ -386,6 +391,7 @@ MUTANTS = [
     M("routing sends everything to sample()", "src/aspire/aspire.py", "if k in sampler_init_kwargs and k != \"self\"\n        }", "if False\n        }", "C20.route"),
 ]
 NEUTRALS = [
+    M("fallback written as a conditional expression", _B, "self.rng = rng or np.random.default_rng()\n        self._adapative_target_efficiency = False", "self.rng = rng if rng is not None else np.random.default_rng()\n        self._adapative_target_efficiency = False"),
     M("fallback written as an if", _B, "self.rng = rng or np.random.default_rng()\n        self._adapative_target_efficiency = False", "if rng is None:\n            rng = np.random.default_rng()\n        self.rng = rng\n        self._adapative_target_efficiency = False"),
     M("copy via dict unpacking call", _E, "self.sampler_kwargs = dict(sampler_kwargs or {})", "self.sampler_kwargs = copy.deepcopy(sampler_kwargs or {})"),
 ]
